@@ -97,32 +97,68 @@ func C14(c *Ctx) {
 		if res := a.Res["parseThrowExpr"]; res != nil {
 			param := res.Fn.Type.Params.List[0].Names[0].Name
 			var bad []string
-			var loop *ast.ForStmt
+			// the scan: innermost handler first. Accepted spellings of "from the top of the stack downwards":
+			//   for i := len(S)-1; i >= 0; i-- { … S[i][label] … }
+			//   for n := range S { … S[len(S)-1-n][label] … }   (the bound also through a local defined once as len(S)-1)
+			//   for _, frame := range slices.Backward(S) { … frame[label] … }
+			var loop ast.Node
 			ast.Inspect(res.Fn.Body, func(n ast.Node) bool {
-				if f, ok := n.(*ast.ForStmt); ok && loop == nil {
-					loop = f
+				switch n.(type) {
+				case *ast.ForStmt, *ast.RangeStmt:
+					if loop == nil {
+						loop = n
+					}
 				}
 				return true
 			})
-			iv := ""
-			if loop == nil || loop.Init == nil || loop.Cond == nil || loop.Post == nil {
-				bad = append(bad, "no index loop over recoveryStack found")
-			} else {
-				as, _ := loop.Init.(*ast.AssignStmt)
-				post, _ := loop.Post.(*ast.IncDecStmt)
+			S := "p.recoveryStack"
+			var wantLookups []string
+			keep := map[string]bool{}
+			switch l := loop.(type) {
+			case *ast.ForStmt:
+				iv := ""
+				if l.Init == nil || l.Cond == nil || l.Post == nil {
+					bad = append(bad, "no index loop over recoveryStack found")
+					break
+				}
+				as, _ := l.Init.(*ast.AssignStmt)
+				post, _ := l.Post.(*ast.IncDecStmt)
 				if as != nil && len(as.Lhs) == 1 {
 					iv = nospace(as.Lhs[0])
 				}
-				if as == nil || nospace(as.Rhs[0]) != "len(p.recoveryStack)-1" || nospace(loop.Cond) != iv+">=0" || post == nil || post.Tok != token.DEC || nospace(post.X) != iv {
+				if as == nil || nospace(as.Rhs[0]) != "len("+S+")-1" || nospace(l.Cond) != iv+">=0" || post == nil || post.Tok != token.DEC || nospace(post.X) != iv {
 					bad = append(bad, "loop is not `for i := len(p.recoveryStack)-1; i >= 0; i--` (innermost handler first)")
 				}
+				keep[iv] = true
+				wantLookups = []string{S + "[" + iv + "][" + param + ".label]"}
+			case *ast.RangeStmt:
+				switch {
+				case nospace(l.X) == S && l.Key != nil && (l.Value == nil || nospace(l.Value) == "_"):
+					n := nospace(l.Key)
+					keep[n] = true
+					for _, ix := range []string{"len(" + S + ")-1-" + n, "len(" + S + ")-" + n + "-1"} {
+						wantLookups = append(wantLookups, S+"["+ix+"]["+param+".label]")
+					}
+				case nospace(l.X) == "slices.Backward("+S+")" && l.Value != nil:
+					fv := nospace(l.Value)
+					keep[fv] = true
+					wantLookups = []string{fv + "[" + param + ".label]"}
+				default:
+					bad = append(bad, "the loop over recoveryStack ("+nospace(l.X)+") does not run from the innermost handler outwards")
+				}
+			default:
+				bad = append(bad, "no index loop over recoveryStack found")
 			}
 			// lookup
 			lookup := false
-			inl := inlineLocals(res.Fn, map[string]bool{iv: true})
+			inl := inlineLocals(res.Fn, keep)
 			ast.Inspect(res.Fn.Body, func(n ast.Node) bool {
-				if ix, ok := n.(*ast.IndexExpr); ok && (nospace(ix) == "p.recoveryStack["+iv+"]["+param+".label]" || inl(ix) == "p.recoveryStack["+iv+"]["+param+".label]") {
-					lookup = true
+				if ix, ok := n.(*ast.IndexExpr); ok {
+					for _, w := range wantLookups {
+						if nospace(ix) == w || inl(ix) == w || strings.ReplaceAll(inl(ix), "(len("+S+")-1)-", "len("+S+")-1-") == w {
+							lookup = true
+						}
+					}
 				}
 				return true
 			})
